@@ -361,6 +361,11 @@ impl Parsing {
         } else if crate::build::age_xot(&mut xot, doc) > 0 {
             ctx.count("parsed_into_aged_xot");
         }
+        // the parser merges adjacent character data and CDATA whatever the Xot's consolidation switch says
+        if doc.structural_hash() % 7 == 2 {
+            xot.set_text_consolidation(false);
+            ctx.count("parsed_with_text_consolidation_off");
+        }
         let epn = ep.name();
         let bytes = match ep {
             Ep::Bytes(enc) => match render::encode(&r.text, enc) {
@@ -803,6 +808,10 @@ impl Monitor for Parsing {
                     }
                     ctx.count("generated_not_renderable");
                 };
+                let mut doc = doc;
+                if rng.chance(1, 12) && inject_cr(&mut doc, rng) {
+                    ctx.count("feature.carriage-return-in-comment-or-pi");
+                }
                 let wf = gen::is_wf_document(&doc);
                 let opts = RenderOpts { fragment: !wf, allow_decl: wf, allow_bom: wf, ..Default::default() };
                 let r = render::render(&doc, &mut RandomChoices(rng), &opts);
